@@ -3,7 +3,7 @@ import PoxModel.Model.Revent
 open Pox Pox.Proto Pox.Revent
 
 /-! Driver for C05.  Request:
-  {"sources":[{"declared":[et..], "acceptAll":bool, "lazy":bool}, ..], "fuel":n, "ops":[action..],
+  {"variant":{"d24":bool,"d60":bool}, "sources":[{"declared":[et..], "acceptAll":bool, "lazy":bool}, ..], "fuel":n, "ops":[action..],
    "scripts":[[hid, [{"halt":null|bool, "acts":[[action, guarded]..], "ret":ret}, ..]], ..]}
   action: every action carries "s" = index of the source it is performed on, and
           {"op":"add","et","hid","prio","once","weak":null|o} | {"op":"bind","ets","base","prio","weak"}
@@ -133,7 +133,9 @@ def handle (j : J) : Except String J := do
   let srcs : Nat → Src := fun i => match sources[i]? with
     | some s => s
     | none => Src.init [] false          -- never addressed: every source index in the request is < n
-  let m := drive (mkBeh tbl) fuel (M.init srcs ops)
+  let vj ← j.get "variant"
+  let v : Variant := ⟨(← vj.boolean "d24"), (← vj.boolean "d60")⟩
+  let m := drive (mkBeh tbl) fuel (M.init v srcs ops)
   let idx := List.range n
   pure (J.mk [("finished", .bool m.finished),
               ("log", .arr (m.log.filterMap evJ)),
